@@ -151,6 +151,38 @@ def run(chk: Check) -> None:
                 nb += 1
                 chk.fail("property", {"tree": tree, "profile": profile, "got": sorted(got_off), "all": sorted(all_md)},
                          f"respect off: the result is not the set of all *.md files: {sorted(got_off ^ all_md)[:4]}", classify)
+        # ---- the command line: --no-respect-gitignore makes .gitignore files inert whatever a config file says ----
+        import c15
+        ncli = 0
+        for fid, tree, profile in trees[: (12 if tier == "quick" else 60)]:
+            root = treegen.materialize(base, tree)
+            if (root / ".git").exists():
+                continue          # .git is a default-excluded name in the generator's vocabulary; keep the tree as generated
+            all_md = {"/".join(c) for c, s in treegen.tree_paths(tree) if "f" in s and c[-1].endswith(".md")}
+            listed_api_off = {str(p.relative_to(root.resolve())) for p in c17.run_impl(["."], config(False), root)}
+            listed_api_on = {str(p.relative_to(root.resolve())) for p in c17.run_impl(["."], config(True), root)}
+            for cfg_name, cfg_text in ((None, None), ("flowmark.toml", "[file-discovery]\nrespect-gitignore = true\n"), (".flowmark.toml", "respect-gitignore = true\n"),
+                                       ("flowmark.toml", "respect-gitignore = false\n")):
+                for flag in (True, False):
+                    for f in ("flowmark.toml", ".flowmark.toml"):
+                        if (root / f).exists():
+                            (root / f).unlink()
+                    if cfg_name:
+                        (root / cfg_name).write_text(cfg_text)
+                    argv = ["--list-files"] + (["--no-respect-gitignore"] if flag else []) + ["."]
+                    rc, out, err = c15.run_main(argv, root)
+                    got = {os.path.relpath(l, root.resolve()) for l in out.split("\n") if l.strip()}
+                    respect = (not flag) and not (cfg_text and "false" in cfg_text)
+                    want = listed_api_on if respect else listed_api_off
+                    ncli += 1
+                    chk.count()
+                    if rc != 0 or got != want:
+                        nb += 1
+                        chk.fail("property", {"tree": tree, "profile": profile, "argv": argv, "config": {cfg_name: cfg_text} if cfg_name else None,
+                                              "listed": sorted(got), "expected": sorted(want), "exit": rc, "stderr": err[-300:]},
+                                 ("with --no-respect-gitignore the listing still depends on .gitignore files" if flag else
+                                  "the listing of the command line differs from the resolver's") + f": {sorted(got ^ want)[:4]}", classify)
+        chk.port_stat("cli --list-files with/without --no-respect-gitignore x config files", ncli, 0)
     finally:
         shutil.rmtree(base, ignore_errors=True)
     chk.port_stat("spec: FileResolver vs git ls-files; respect off = inert", ncases, nb)
